@@ -39,16 +39,16 @@ type Explorer struct {
 }
 
 type Stats struct {
-	Executions    int
-	Completed     int // executions that reached an end state
-	Pruned        int
-	States        int // distinct state keys at choice points
-	Transitions   int // scheduler steps executed, all executions
-	Outcomes      int // distinct observation digests among completed executions
-	MaxDepth      int
-	Exhaustive    bool
-	BoundReached  int
-	ByOutcome     map[string]int
+	Executions     int
+	Completed      int // executions that reached an end state
+	Pruned         int
+	States         int // distinct state keys at choice points
+	Transitions    int // scheduler steps executed, all executions
+	Outcomes       int // distinct observation digests among completed executions
+	MaxDepth       int
+	Exhaustive     bool
+	BoundReached   int
+	ByOutcome      map[string]int
 	Nondeterminism string
 }
 
@@ -62,6 +62,7 @@ type Violation struct {
 type Sample struct {
 	Choices []int               `json:"choices"`
 	Outcome string              `json:"outcome"`
+	Summary string              `json:"observed,omitempty"`
 	Logs    map[string][]string `json:"logs,omitempty"`
 	GLog    []string            `json:"glog,omitempty"`
 }
@@ -143,8 +144,13 @@ func (x *Explorer) Explore() error {
 		} else {
 			x.Stats.Completed++
 			d := r.Digest()
+			sum := ""
 			if x.Outcome != nil {
 				os := x.Outcome(r)
+				sum = os
+				if len(sum) > 600 {
+					sum = sum[:600] + "..."
+				}
 				d = hashString(os)
 				if x.OutcomeSet != nil {
 					x.OutcomeSet[os]++
@@ -154,7 +160,7 @@ func (x *Explorer) Explore() error {
 				x.outcomes[d] = true
 				x.Stats.Outcomes++
 				if len(x.Samples) < x.MaxSamples {
-					x.Samples = append(x.Samples, Sample{Choices: r.Choices, Outcome: r.Outcome, Logs: r.Logs, GLog: r.GLog})
+					x.Samples = append(x.Samples, Sample{Choices: r.Choices, Outcome: r.Outcome, Summary: sum, Logs: r.Logs, GLog: r.GLog})
 				}
 			}
 			if msg := x.Judge(r); msg != "" {
